@@ -88,7 +88,9 @@ class TransitionDipoleMoment(SelfAdjointOperator, BasisManaged):
         """Returns a component of the transition dipole moment operator
         
         """
-        return SelfAdjointOperator(dim=self.dim, data=self.data[:,:,n])
+        # the operator gets its own array: it is transformed between bases
+        # independently of the dipole moment it was taken from
+        return SelfAdjointOperator(dim=self.dim, data=self.data[:,:,n].copy())
     
     def get_dipole_length_operator(self):
         """Returns operator composed of the dipole strengths
